@@ -2,13 +2,16 @@
 # usage: mutant_check.sh <seeded dir> <Cxx> [more ids]   — the brief's procedure: apply the change to /repo, run the quick
 # checks, undo it straight afterwards.  Writes <dir>/check.<Cxx>.log (+ the first replay as <dir>/replay.<Cxx>.json)
 set -u
+# REPO/VERIF may point to an isolated copy (worktree of /repo HEAD + rsync'ed copy of /verif whose harness depends on that
+# worktree) while sub-agents are still building against /repo itself: same procedure, different directories
+REPO=${REPO:-/repo}; VERIF=${VERIF:-/verif}
 MUT=$1; shift
-if [ -n "$(git -C /repo status --porcelain --untracked-files=no)" ]; then echo "/repo is not clean"; exit 2; fi
-git -C /repo apply $MUT/patch.diff || { echo "patch does not apply to /repo"; exit 2; }
-trap 'git -C /repo checkout -q -- .' EXIT
+if [ -n "$(git -C $REPO status --porcelain --untracked-files=no)" ]; then echo "$REPO is not clean"; exit 2; fi
+git -C $REPO apply $MUT/patch.diff || { echo "patch does not apply to $REPO"; exit 2; }
+trap 'git -C $REPO checkout -q -- .' EXIT
 for P in "$@"; do
-  ( cd /verif && rm -rf replays/$P && timeout 3000 ./check $P quick > $MUT/check.$P.log 2>&1; echo "exit=$?" >> $MUT/check.$P.log )
+  ( cd $VERIF && rm -rf replays/$P && timeout 3000 ./check $P quick > $MUT/check.$P.log 2>&1; echo "exit=$?" >> $MUT/check.$P.log )
   R=$(grep -m1 "^VIOLATION" $MUT/check.$P.log | sed 's/.*replay=\([^ ]*\).*/\1/')
-  [ -n "$R" ] && [ -f "/verif/$R" ] && cp "/verif/$R" $MUT/replay.$P.json
+  [ -n "$R" ] && [ -f "$VERIF/$R" ] && cp "$VERIF/$R" $MUT/replay.$P.json
   echo "$(basename $MUT) $P: $(grep -c '^VIOLATION' $MUT/check.$P.log) VIOLATION lines, $(grep -c 'no-failing-input-found' $MUT/check.$P.log) without failing input, $(tail -1 $MUT/check.$P.log)"
 done
